@@ -3859,7 +3859,12 @@ XPath::findAttributes(
                     const eMatchScore   score =
                         theTester(*theNode, XalanNode::ATTRIBUTE_NODE);
 
-                    if(eMatchScoreNone != score)
+                    // Namespace declarations are not attribute nodes, so
+                    // they are never on the attribute axis, whatever the
+                    // node test (attribute::node() matches them).
+                    if(eMatchScoreNone != score &&
+                       DOMServices::isNamespaceDeclaration(
+                            static_cast<const XalanAttr&>(*theNode)) == false)
                     {
                         subQueryResults.addNode(theNode);
                     }
